@@ -42,7 +42,7 @@ type TaskSpec struct {
 
 // OpSpec is one public-API call.
 type OpSpec struct {
-	Kind   string `json:"kind"` // query first exists match existsormatch string marshal ispredicate parse parsequery scan unmarshal
+	Kind   string `json:"kind"` // query first exists match existsormatch string marshal ispredicate parse parsequery scan unmarshal rekeyquery
 	Path   int    `json:"path"`
 	Path2  int    `json:"path2,omitempty"` // scan/unmarshal: text scanned into the caller's own fresh parse of Path
 	Doc    int    `json:"doc"`
@@ -51,6 +51,7 @@ type OpSpec struct {
 	Silent bool   `json:"silent,omitempty"`
 	TZ     bool   `json:"tz,omitempty"`   // exec.WithTZ
 	Zone   string `json:"zone,omitempty"` // "" (no zone in ctx), "UTC", "+05:30", "America/New_York", ...
+	TZOuter bool  `json:"tzouter,omitempty"` // zone carried by a private ContextWithTZ wrapper around the call's context instead of by the scenario's shared base context
 	Ctx    string `json:"ctx,omitempty"`  // "" = stub; "cancel", "deadline", "parent", "cause"
 	Fault  *Fault `json:"fault,omitempty"`
 }
@@ -75,7 +76,7 @@ type Window struct {
 // IsExec reports whether the op kind runs the executor.
 func (o OpSpec) IsExec() bool {
 	switch o.Kind {
-	case "query", "first", "exists", "match", "existsormatch", "parsequery":
+	case "query", "first", "exists", "match", "existsormatch", "parsequery", "rekeyquery":
 		return true
 	}
 	return false
@@ -136,6 +137,10 @@ func (s *Scenario) Validate() error {
 			switch o.Kind {
 			case "query", "first", "exists", "match", "existsormatch", "parsequery",
 				"string", "marshal", "ispredicate", "parse":
+			case "rekeyquery":
+				if o.Fault != nil {
+					return fmt.Errorf("scenario: %s: rekeyquery takes no fault", where)
+				}
 			case "scan", "unmarshal":
 				if o.Path2 < 0 || o.Path2 >= len(s.Paths) {
 					return fmt.Errorf("scenario: %s: bad path2 index", where)
